@@ -24,7 +24,9 @@ pub fn base_oracle(case: &RespCase, out: &RespOut, what: &str) -> Result<(), (St
         return Err((format!("panic-read-{}", what), "a body read panicked".into()));
     }
     let lines: usize = case.segs.iter().map(|s| if let Seg::Data(d) = s { d.iter().filter(|&&b| b == b'\n').count() } else { 0 }).sum();
-    if out.peak_alloc > alloc_bound(out.pulled, lines) {
+    // (the BufRead-view cases keep a copy of every slice fill_buf showed, the same slice many times over:
+    // that is the harness' memory, not the library's)
+    if !matches!(case.reads, Reads::BufOps(_)) && out.peak_alloc > alloc_bound(out.pulled, lines) {
         return Err((format!("alloc-{}", what), format!("peak live allocation {} B after pulling only {} B ({} lines) from the peer (bound {})", out.peak_alloc, out.pulled, lines, alloc_bound(out.pulled, lines))));
     }
     Ok(())
@@ -197,6 +199,9 @@ pub fn generate(seed: u64, tier: &str, sink: &mut Sink) {
         }
         let reads = if rng.chance(1, 6) {
             Reads::Drain(8192)
+        } else if rng.chance(1, 6) {
+            // the BufRead view (fill_buf / consume with any amounts) on hostile input: never a panic
+            Reads::BufOps(crate::bufview::gen_ops(&mut rng, 300, 6).0)
         } else {
             let mut ns: Vec<usize> = vec![];
             let k = rng.range(1, 8);
